@@ -339,12 +339,18 @@ def run_check(tier, seed, nworkers=None, nruns=None, budget_s=None, evidence_pat
                 return (2, 1e9, k)
             adhoc = t.group.startswith("field:") and t.group[6:] not in G.FAMS
             return (1 if adhoc else 0, t.cost, k)
-        for key in sorted(agg["state_probes"]):
-            ks = sorted(agg["state_probes"][key], key=pref)
-            for k in ks[:3]:
-                if k in G.BY_KIND and k not in chosen:
-                    chosen.append(k)
-        chosen = sorted(chosen, key=pref)[:12]
+        # state keys that changed or filled first, names that merely appeared last; one
+        # kind per key in turn, so that every piece of hidden state gets its share of the
+        # twelve kinds
+        order = sorted(agg["state_probes"],
+                       key=lambda k: (k.startswith(("new-name", "code-rebound")), k))
+        per_key = {key: [k for k in sorted(agg["state_probes"][key], key=pref)
+                         if k in G.BY_KIND][:3] for key in order}
+        for rnd in range(3):
+            for key in order:
+                if rnd < len(per_key[key]) and per_key[key][rnd] not in chosen \
+                        and len(chosen) < 12:
+                    chosen.append(per_key[key][rnd])
         extra = {}
         idx = n
         for k in chosen:
